@@ -177,9 +177,10 @@ P_C04 = gen.profile(**{**gen.SCHED, "swarm": ("resources", "p_dep", "max_args", 
 P_C05 = gen.profile(**{**gen.SCHED, "p_seq": 0.35, "mc": (2, 5), "n_stmts": (3, 10)})
 P_C06 = gen.profile(**{**gen.SCHED, "prio": (-3, 5), "p_prio": 0.85, "p_flag": 0.1})
 P_C06D = gen.profile(**{**gen.SCHED, "prio": (-3, 5), "p_prio": 0.9, "p_flag": 0.05, "p_debug": 0.3, "n_stmts": (3, 10)})
-P_C08 = gen.profile(**{**gen.SCHED, "mc": (2, 5), "n_stmts": (3, 10), "p_seq": 0.15})
+P_C08 = gen.profile(**{**gen.SCHED, "mc": (2, 5), "n_stmts": (3, 10), "p_seq": 0.15,
+                       "shape_bias": [("uniform", 3), ("recent", 2), ("early", 1), ("wide", 1), ("join", 2), ("caterpillar", 3)]})
 P_C09 = gen.profile(**{**gen.SCHED, "swarm": ("resources", "p_dep", "max_args", "p_seq", "p_prio"), "p_flag": 0.3, "p_seq": 0.25, "p_setup": 0.08,
-                       "ret_types": [("int", 5), ("bool", 2), ("tuple2", 3), ("dict", 1)], "p_unpack": 0.4, "p_flag_sibling": 0.5})
+                       "ret_types": [("int", 5), ("bool", 2), ("tuple2", 3), ("dict", 1)], "p_unpack": 0.4, "p_flag_sibling": 0.75})
 
 
 P_C09L = gen.profile(**{**gen.SCHED, "resources": [("async_thread", 6), ("thread", 2), ("main_thread", 1)], "n_stmts": (2, 7), "mc": (2, 5),
@@ -249,7 +250,7 @@ def g_c08(d: Draw) -> dict:
 
 
 def g_c09(d: Draw) -> dict:
-    mode = d.weighted([("faults", 6), ("cancel", 2), ("setup", 2), ("loopfault", 2)])
+    mode = d.weighted([("faults", 6), ("cancel", 2), ("setup", 2), ("loopfault", 3)])
     if mode in ("cancel", "loopfault"):
         spec = gen.gen_program(d, P_C09 if mode == "cancel" else P_C09L)
         dg = spec["dags"]["main"]
@@ -265,10 +266,11 @@ def g_c09(d: Draw) -> dict:
                    n_variants=1)
         if mode == "loopfault":
             scn["tick_nodes"] = "all"
+            scn["tick_wait"] = d.int(1, 10)
             calls_idx = [i for i, s_ in enumerate(dg["stmts"]) if s_["k"] == "call" and not spec["funcs"][s_["fn"]]["setup"]]
             if calls_idx:
                 scn["faults"] = [dict(op=[0, 0, d.int(0, len(calls) - 1)], path=[["main", d.pick(calls_idx)]],
-                                      when=d.pick(["late", "early"]), kind=d.pick(["exc", "exc", "base"]))]
+                                      when=d.pick(["early", "early", "early", "late"]), kind=d.pick(["exc", "exc", "base"]))]
         if op["ticker"]:
             scn["fair_only"] = True
         d.choice(1)
@@ -306,7 +308,10 @@ reg(Prop("C03", g_c03, {"count_missing": "C03.a", "count_dup": "C03.a", "count_e
 reg(Prop("C04", g_c04, {"maxconc": "C04.a", "thread_pool": "C04.b", "thread_main": "C04.c"}))
 reg(Prop("C05", g_c05, {"seq_enter": "C05.a", "seq_during": "C05.b"}))
 reg(Prop("C06", g_c06, {"prio": "C06.a"}))
-reg(Prop("C08", g_c08, {"idle": "C08.a", "idle_during": "C08.b"}))
+# (idling shows when some nodes are slow while others finish: the stall strategy - chosen functions finish / start last - gets
+# half of the schedules)
+reg(Prop("C08", g_c08, {"idle": "C08.a", "idle_during": "C08.b"},
+         strategies=["uniform", "stall", "sticky", "stall", "pct2", "stall", "pct3", "stall", "fifo2", "stall"]))
 reg(Prop("C09", g_c09, {"deadlock": "C09.a", "livelock": "C09.b", "early_return": "C09.c", "count_missing": "C09.c"},
          watchdog=True, fault_enum=True, n_sched=2, quick=600, thorough=12000, level="fault_enumeration", nontrivial="all"))
 
@@ -993,6 +998,7 @@ def g_c17(d: Draw) -> dict:
         scn["fair_only"] = True
     if op["ticker"] and d.bool(0.6):
         scn["tick_nodes"] = "all"
+        scn["tick_wait"] = d.int(1, 6)
     if d.bool(0.2):
         op["cancel"] = dict(idx=d.int(0, len(calls) - 1), at=d.int(0, 6))
     elif d.bool(0.25):
